@@ -515,6 +515,17 @@ def _run(tier, res, b):
         ncorr["pad_helpers"] += 1
         if m is not None and m != r:
             note_diff("needed_total_padding/calc_explicit_padding", c, m, r)
+        # oracle (theorem calc_explicit_padding_exact): the after-padding is exactly what the last filter position needs
+        i_, s_, f_, pb_, pa_ = c
+        if f_ <= i_ + pb_ + pa_:
+            out_ = (i_ + pb_ + pa_ - f_) // s_ + 1
+            want = max(0, (out_ - 1) * s_ + f_ - pb_ - i_)
+            evals += 1
+            if r[1] != pb_ or r[2] != want:
+                finding({"kind": "explicit_bottom_padding_lost"},
+                        dict(H=i_, stride=s_, kernel=f_, pad_before=pb_, pad_after=pa_, ofm=out_, returned=[r[1], r[2]], required_after=want),
+                        "calc_explicit_padding(%d, %d, %d, %d, %d) returns %r; the last of the %d filter positions needs after-padding %d" % (
+                            i_, s_, f_, pb_, pa_, (r[1], r[2]), out_, want), prio=0 if (pb_ <= f_ // 2 and pa_ <= f_ // 2) else 1)
     cases, reals = [], []
     for (H, k, d, s, pad, t, bb) in geometry_cases(rng, "quick"):
         for W, kw, sx, dx in ((H, k, s, d), (7, 3, 1, 1)):
